@@ -678,6 +678,10 @@ class PoolTheory(Theory):
                 return self.sem_release(st, fr, place, val)
             if name == "acquire":
                 return [(st, CoroV("builtin", "sem_acquire", {"place": place}))]
+            if name == "_wake_up_next":
+                # asyncio.Semaphore._wake_up_next (3.12): grants to the first pending waiter - without looking at the counter
+                ip.place_set(st, place, self.sem_wake_next(val))
+                return [(st, NoneV())]
         if isinstance(val, LockV):
             if name == "acquire":
                 return [(st, CoroV("builtin", "lock_acquire", {"place": place}))]
